@@ -497,6 +497,8 @@ type DefOutcome struct {
 	Panic    string
 	Accepted int // consumers that returned without error
 	Started  bool
+	// Invariant names the stability clause of C16 that an accepted definition breaks ("" = none)
+	Invariant, InvariantDetail string
 }
 
 var c16Contact = []byte(`{"uuid":"5d76d86b-3bb9-4d5a-b822-c9d86f5d8e4f","id":1234567,"name":"Ryan Lewis","language":"eng","timezone":"America/Guayaquil","created_on":"2018-06-20T11:40:30.123456789Z","urns":["tel:+12024561111","twitterid:54784326227#nyaruka","mailto:foo@bar.com"],"fields":{}}`)
@@ -540,8 +542,17 @@ func NewC16World(def *CorpusDef) *C16World {
 }
 
 // Consume serves the faulty bytes the ways a host consumes a stored definition.
-func (cw *C16World) Consume(faulty []byte) DefOutcome {
-	out := DefOutcome{}
+func (cw *C16World) Consume(faulty []byte, invariants bool) (out DefOutcome) {
+	if invariants {
+		if p := guarded(func() { out.Invariant, out.InvariantDetail = MigrationInvariants(faulty, func() { cw.Seams.UUIDs.Counter = 0 }) }); p != "" {
+			// the consumers below meet the same panic and name it properly; this is the fallback
+			defer func() {
+				if out.Panic == "" {
+					out.Consumer, out.Panic = "MigrationInvariants", p
+				}
+			}()
+		}
+	}
 	cw.Seams.Clock.T = simStart
 	cw.Seams.UUIDs.Counter = 0
 	cw.Seams.Rand.G = sim.SplitMix64{S: 7}
@@ -655,3 +666,142 @@ func (cw *C16World) Consume(faulty []byte) DefOutcome {
 }
 
 var _ = time.Now
+
+// MigrationInvariants checks, for stored bytes that the library itself accepts as a definition of
+// an older (or the current) version - MigrateToLatest succeeds and the result loads -, the
+// stability clauses of C16: flow UUID kept, for 13.x sources every node, exit and destination
+// kept in order, legacy entry node first, a current definition returned untouched, a second
+// migration a no-op, stepwise migration equal to migration in one go, and read -> marshal ->
+// read a fixpoint. It returns ("", "") when the bytes are rejected or every clause holds.
+func MigrationInvariants(src []byte, resetSeams func()) (kind, detail string) {
+	resetSeams() // legacy migration draws UUIDs: every migration below starts from the same UUID stream
+	m1, err := migrations.MigrateToLatest(src, migrations.DefaultConfig)
+	if err != nil {
+		return "", ""
+	}
+	fl, err := definition.ReadFlow(m1, nil)
+	if err != nil {
+		return "", "" // whether the source was valid at its own version cannot be decided here
+	}
+	var s, m map[string]any
+	if json.Unmarshal(src, &s) != nil || json.Unmarshal(m1, &m) != nil {
+		return "", ""
+	}
+	specVersion, is13 := s["spec_version"].(string)
+	// flow UUID
+	srcUUID, _ := s["uuid"].(string)
+	if !is13 {
+		if md, ok := s["metadata"].(map[string]any); ok {
+			srcUUID, _ = md["uuid"].(string)
+		} else {
+			srcUUID = ""
+		}
+	}
+	if srcUUID != "" && string(fl.UUID()) != srcUUID {
+		return "uuid-changed", fmt.Sprintf("source uuid %s, migrated flow uuid %s", srcUUID, fl.UUID())
+	}
+	graph := func(d map[string]any) (string, bool) {
+		nodes, ok := d["nodes"].([]any)
+		if !ok {
+			return "", d["nodes"] == nil
+		}
+		var sb strings.Builder
+		for _, n := range nodes {
+			nm, ok := n.(map[string]any)
+			if !ok {
+				return "", false
+			}
+			fmt.Fprintf(&sb, "node %v:", nm["uuid"])
+			exits, _ := nm["exits"].([]any)
+			for _, e := range exits {
+				em, ok := e.(map[string]any)
+				if !ok {
+					return "", false
+				}
+				dest := em["destination_uuid"]
+				if dest == nil {
+					dest = ""
+				}
+				fmt.Fprintf(&sb, " %v->%v", em["uuid"], dest)
+			}
+			sb.WriteString("\n")
+		}
+		return sb.String(), true
+	}
+	if is13 {
+		g0, ok0 := graph(s)
+		g1, ok1 := graph(m)
+		if ok0 && ok1 && g0 != g1 {
+			return "graph-changed", fmt.Sprintf("nodes/exits/destinations before:\n%s\nafter:\n%s", clipDetail(g0), clipDetail(g1))
+		}
+		if v, err := semver.NewVersion(specVersion); err == nil && !v.LessThan(definition.CurrentSpecVersion) && string(m1) != string(src) {
+			return "current-touched", "a definition already at the current version was not returned untouched"
+		}
+	} else {
+		// legacy: entry node first, action sets and rule sets keep their UUIDs as nodes
+		entry, _ := s["entry"].(string)
+		have := map[string]bool{}
+		for _, k := range []string{"action_sets", "rule_sets"} {
+			if l, ok := s[k].([]any); ok {
+				for _, x := range l {
+					if xm, ok := x.(map[string]any); ok {
+						if u, ok := xm["uuid"].(string); ok {
+							have[u] = true
+						}
+					}
+				}
+			}
+		}
+		nodes := fl.Nodes()
+		got := map[string]bool{}
+		for _, n := range nodes {
+			got[string(n.UUID())] = true
+		}
+		if entry != "" && have[entry] && len(nodes) > 0 && string(nodes[0].UUID()) != entry {
+			return "entry-not-first", fmt.Sprintf("legacy entry %s, first migrated node %s", entry, nodes[0].UUID())
+		}
+		for _, u := range gen.SortedKeys(have) {
+			if !got[u] {
+				return "legacy-node-lost", fmt.Sprintf("legacy action/rule set %s is not a node of the migrated flow", u)
+			}
+		}
+	}
+	// a second migration is a no-op
+	m2, err := migrations.MigrateToLatest(m1, migrations.DefaultConfig)
+	if err != nil || string(m2) != string(m1) {
+		return "second-migration-not-noop", fmt.Sprintf("err=%v", err)
+	}
+	// stepwise == in one go
+	resetSeams()
+	cur := src
+	for _, v := range append([]string{"13.0.0"}, c16Versions...) {
+		cur, err = migrations.MigrateToVersion(cur, semver.MustParse(v), migrations.DefaultConfig)
+		if err != nil {
+			return "stepwise-differs", fmt.Sprintf("migrating in one go succeeds, stepwise fails at %s: %v", v, err)
+		}
+	}
+	if string(cur) != string(m1) {
+		return "stepwise-differs", "migrating version by version gives other bytes than migrating in one go: " + firstDiff(string(cur), string(m1))
+	}
+	// read -> marshal -> read is a fixpoint
+	b1, err := jsonx.Marshal(fl)
+	if err != nil {
+		return "marshal-fails", err.Error()
+	}
+	fl2, err := definition.ReadFlow(b1, nil)
+	if err != nil {
+		return "marshalled-unreadable", err.Error()
+	}
+	b2, _ := jsonx.Marshal(fl2)
+	if string(b1) != string(b2) {
+		return "marshal-not-fixpoint", firstDiff(string(b1), string(b2))
+	}
+	return "", "accepted"
+}
+
+func clipDetail(s string) string {
+	if len(s) > 1500 {
+		return s[:1500] + "…"
+	}
+	return s
+}
